@@ -153,6 +153,43 @@ def k2(ctx, fx, A, fn, b, node):
         chk(ctx, fn, line, "b:aud-required" + tag, isinstance(req, set) and "aud" in req, "\"aud\" is a required claim", "\"aud\" is not required (%r): a KB-JWT without aud would pass" % (sorted(req) if isinstance(req, set) else req,))
         chk(ctx, fn, line, "b:validate_aud" + tag, st["validate_aud"] is True, "validate_aud left on", "validate_aud is %r" % (st["validate_aud"],))
         chk(ctx, fn, line, "b:signature" + tag, st["sig"] is True, "signature validation left on", "signature validation disabled for the KB-JWT")
+    # (f) the algorithm the KB-JWT is checked with is the KB-JWT's own (its header's `alg`, or the documented default) — never the
+    # issuer-signed JWT's: an honest holder may sign with another algorithm than the issuer
+    vnews = [x for x in walk(valn) if x.kind == "call" and (x.d["term"].get("resolved") or "") == "jsonwebtoken::Validation::new" and x.kids]
+    for vn_ in vnews:
+        bad_src = None
+        kb_src = False
+        stack_, seen_ = [vn_.kids[0]], set()
+        while stack_:
+            x = stack_.pop()
+            if id(x) in seen_:
+                continue
+            seen_.add(id(x))
+            if x.kind == "field" and x.d.get("adt") in (COMMON_ADT, "SDJWTCommon") and x.d.get("name"):
+                nm_ = x.d["name"]
+                if nm_ == "unverified_input_key_binding_jwt":
+                    kb_src = True
+                    continue
+                if nm_ in ("sign_alg", "unverified_sd_jwt", "unverified_input_sd_jwt_payload"):
+                    bad_src = "SDJWTCommon.%s (the issuer-signed JWT's)" % nm_
+                    continue
+                origin = _field_origin(fx, nm_)
+                if origin == "kb":
+                    kb_src = True
+                elif origin == "jwt":
+                    bad_src = "SDJWTCommon.%s, which the parser derives from the issuer-signed JWT" % nm_
+                continue
+            if x.kind == "call" and (x.d["term"].get("resolved") or "") == "jsonwebtoken::decode_header" and x.kids:
+                if must(x.kids[0], lambda y: is_field(y, "unverified_input_key_binding_jwt")):
+                    kb_src = True
+                elif may(x.kids[0], lambda y: is_field(y, "unverified_sd_jwt")):
+                    bad_src = "the header of the issuer-signed JWT"
+                continue
+            stack_.extend(k_ for k_ in x.kids if k_.kind != "cycle")
+        if bad_src:
+            ctx.finding("C04.K2", fn, "f:kb-algorithm", "the key-binding JWT is checked with an algorithm taken from %s, not from its own header: an honest holder whose key uses another algorithm than the issuer's is rejected" % bad_src, line=line)
+        else:
+            ctx.ok("C04.K2", fn, "f:kb-algorithm", "the algorithm of the KB-JWT's Validation comes from the KB-JWT's own header%s, never from the issuer-signed JWT" % ("" if kb_src else " or is a constant default"), line=line)
     # (c)(d)(e): equality guards
     decoded = lambda x: common._outcome_root(peel_to_call(x)) is node
     specs = [
@@ -170,6 +207,12 @@ def k2(ctx, fx, A, fn, b, node):
                 continue
             l, r = c.kids
             eq_edge = (bb, tt) if c.d["term"]["name"] == "eq" else (bb, ft)
+
+            def unsome(x):
+                # `claims.get(k).and_then(Value::as_str) == Some(expected)`: the comparison of two Options with a literal Some on one side
+                p_ = peel(x)
+                return p_.kids[0] if (p_.kind == "agg" and p_.d["agg"].get("variant") in ("Some", "Ok") and len(p_.kids) == 1) else x
+            l, r = unsome(l), unsome(r)
             if (lpred(l) and rpred(r)) or (lpred(r) and rpred(l)):
                 good.append(eq_edge)
         if good and all(guarded_(fn, o, good) for o in oks):
@@ -185,6 +228,54 @@ def k2(ctx, fx, A, fn, b, node):
                 lines = sorted(set(fn.term(x).get("line") for x in path if fn.term(x).get("line")))
                 extra = " (a path to Ok avoids the comparison; it runs through lines %s)" % lines[-6:]
             ctx.finding("C04.K2", fn, what, badmsg + extra, line=line)
+
+
+COMMON_ADT = "SDJWTCommon"
+
+
+def _field_origin(fx, field):
+    """'kb' / 'jwt' / None: which part of the presentation every parser derives SDJWTCommon.<field> from — the value it also stores as
+    unverified_input_key_binding_jwt, or the one it stores as unverified_sd_jwt (judged on the parsers' views)"""
+    from val import same
+    import c10
+    res = set()
+    for p in c10.parsers(fx):
+        v = fx.view(p.name)
+        def W(f_):
+            return [w for w in (common.struct_field_writes(fx, COMMON_ADT, f_, fns=[v]) or []) if w["how"] in ("assign", "calldest") and w["value"] is not None]
+        ws = W(field)
+        if not ws:
+            continue
+        def strip(n):
+            n = peel(n)
+            g = 0
+            while n.kind == "agg" and n.d["agg"].get("variant") == "Some" and n.kids and g < 3:
+                n = peel(n.kids[0])
+                g += 1
+            return n
+        kbs = [strip(w["value"]) for w in W("unverified_input_key_binding_jwt")]
+        jwts = [strip(w["value"]) for w in W("unverified_sd_jwt")]
+        for w in ws:
+            nodes = list(walk(w["value"]))
+            def hits(cands):
+                for c in cands:
+                    roots = [c] + [x for x in walk(c) if x.kind in ("field", "call", "variant", "index")][:6]
+                    for r in roots[:1]:
+                        if any(x is r or (x.kind == r.kind and same(x, r)) for x in nodes):
+                            return True
+                return False
+            hk, hj = hits(kbs), hits(jwts)
+            if hk and not hj:
+                res.add("kb")
+            elif hj and not hk:
+                res.add("jwt")
+            else:
+                res.add(None)
+    if res == {"kb"}:
+        return "kb"
+    if "jwt" in res:
+        return "jwt"
+    return None
 
 
 def live_field(x, name):
